@@ -1428,8 +1428,8 @@ where
     trace!("Reading BPB");
     let block = block_cache.read(lba_start).map_err(Error::DeviceError)?;
     let bpb = Bpb::create_from_bytes(block).map_err(Error::FormatError)?;
-    // (a valid volume has at least one block, and its last block must be addressable)
-    if lba_start.0.checked_add(bpb.total_blocks() - 1).is_none() {
+    // (block ranges are half-open, so the block after the last one must be addressable too)
+    if lba_start.0.checked_add(bpb.total_blocks()).is_none() {
         return Err(Error::FormatError("Volume does not fit the device"));
     }
     let fat_start = BlockCount(u32::from(bpb.reserved_block_count()));
